@@ -195,6 +195,22 @@ def main():
         seen_kf.add(kf['id'])
         print('KNOWN-FINDING: property=%s %s [%s: obligation %s]' % (pid, kf['what_fails'], kf['id'], o.name))
 
+    # thorough tier: the scenario corpus of this property is replayed on the real code (reported separately; never counted as an
+    # obligation). A repaired finding that reproduces again is a violation with a failing input; an open one that stops reproducing is noted.
+    corpus_report = []
+    if tier == 'thorough':
+        corpus = json.load(open(os.path.join(HERE, 'replay', 'corpus.json')))['scenarios']
+        props_of = {k['id']: k.get('properties', []) for k in kfs}
+        for sc in corpus:
+            if pid not in props_of.get(sc['finding'], []):
+                continue
+            r = replay_registry.run_native(sc['script'], [])
+            corpus_report.append({'script': sc['script'], 'finding': sc['finding'], 'expected_exit': sc['expect'], 'exit': r['exit']})
+            if sc['expect'] == 0 and r['exit'] == 1:
+                rp = os.path.join(OUT, 'replays', '%s-scenario-%s.json' % (pid, slug(sc['script'])))
+                json.dump({'property': pid, 'obligation': 'scenario:' + sc['script'], 'finding_that_was_repaired': sc['finding'], 'confirmed': True, 'replay': r}, open(rp, 'w'), indent=1)
+                vio_lines.append('VIOLATION property=%s replay=%s' % (pid, rp))
+
     n_clauses = len(clauses)
     n_discharged = sum(1 for c in clauses.values() if c['unsat'] == c['instances'])
     wall = time.time() - t0
@@ -222,6 +238,7 @@ def main():
         'vacuity': {'canaries_sat': sum(1 for c in canaries if c.verdict in ('sat', 'sat*')), 'canaries': len(canaries), 'errors': vacuity_errors},
         'not_decided_clauses': P.get('not_decided', []),
         'bounded': P.get('bounded', []),
+        'scenario_corpus_replayed': corpus_report,
         'explanation': ('contract-based deductive verification of the real functions: %d of %d contract clauses discharged for all inputs/paths; '
                         '%d clause(s) fail with counterexamples that are listed known findings; see samples' % (n_discharged, n_clauses, len(seen_kf))),
     }
